@@ -52,3 +52,6 @@ void ob_c04_diagonal_negctl(const std::array<size_t,2>& shape_, const std::array
                       template void ob_c04_diagonal<K,R,A1,A2,1>(const mk_t<K,size_t,R>&, const mk_t<K,size_t,R-1>&, int);
 #define DGK(R,A1,A2) DG(k_std,R,A1,A2) DG(k_utl,R,A1,A2)
 DGK(2,0,1) DGK(2,1,0) DGK(3,0,1) DGK(3,1,2) DGK(3,0,2) DGK(3,2,0) DGK(4,1,3) DGK(4,2,1)
+#ifdef VERIF_THOROUGH
+DGK(3,1,0) DGK(3,2,1) DGK(4,0,1) DGK(4,0,2) DGK(4,0,3) DGK(4,1,2) DGK(4,3,0) DGK(4,3,2)
+#endif
